@@ -37,3 +37,10 @@ package cwriter
 //@   props    C04 C02
 //@   requires w != nil
 //@   modifies nothing
+
+// New is not verified (copy into a byte slice is outside the string model): its contract is
+// assumed and listed as such.
+//@ func New
+//@   props    C04 C02
+//@   trusted
+//@   ensures  result != nil && fresh(result) && result.Buffer != nil && result.out == out && result.termSize != nil
